@@ -15,6 +15,18 @@ package subscription
 //@ modifies ghost(s.$unsubAlls), ghost(s.$lastUnsubAll)
 //@ ensures s.$unsubAlls == old(s.$unsubAlls) + 1 && s.$lastUnsubAll == clientID
 
+// Unsubscribe as used by the broker core (one topic per call): $unsubs counts the calls, $lastUnsubClient /
+// $lastUnsubTopic are the arguments of the last one.
+//@ ghost field (Store).unsubs int
+//@ ghost field (Store).lastUnsubClient string
+//@ ghost field (Store).lastUnsubTopic string
+
+//@ func (Store).Unsubscribe
+//@ params s, clientID, topics
+//@ requires len(topics) == 1
+//@ modifies ghost(s.$unsubs), ghost(s.$lastUnsubClient), ghost(s.$lastUnsubTopic)
+//@ ensures s.$unsubs == old(s.$unsubs) + 1 && s.$lastUnsubClient == clientID && s.$lastUnsubTopic == topics[0]
+
 // Subscribe as used by the broker core (one subscription per call): $subs counts the calls, $lastSubClient /
 // $lastSub are the arguments of the last one. On success the result has one entry, for the subscription handed in.
 //@ ghost field (Store).subs int
